@@ -37,7 +37,7 @@ func (c13) Plan(tier string) core.Plan { return core.Plan{Shards: 16} }
 func (m c13) Run(ctx *core.Ctx) {
 	r := ctx.Rng
 	n := split(tierN(ctx.Tier, 300_000, 6_000_000), ctx.Shard, ctx.NShards)
-	kinds := histKinds{setters: true, sp: true}
+	kinds := histKinds{setters: true, sp: true, extra: true}
 	for i := int64(0); i < n; i++ {
 		cs := &core.Case{N: r.IntN(16)}
 		if i%2 == 0 {
